@@ -7,6 +7,9 @@ from checks.c05 import read_numeral
 
 THEOREMS = ["Rink.Spec.divPow_get", "Rink.Spec.fastDecompose_spec", "Rink.Spec.prefixSearch_sound", "Rink.Spec.gram_rescale", "Rink.Spec.gram_rescale_neg", "Rink.Spec.byte_rescale", "Rink.Spec.toParts_dims", "Rink.Spec.quantityOf_registered", "Rink.Spec.showConv_fields", "Rink.Dim.get_mul", "Rink.Dim.get_recip", "Rink.Dim.get_pow"]
 
+TARGET_THEOREMS = ["Rink.Spec.C06T.target_denotes", "Rink.Spec.C06T.conversion_displays_top", "Rink.Spec.C06T.namesVal_merge",
+                   "Rink.Spec.C06T.namesVal_pow", "Rink.Spec.C06T.namesVal_recip"]
+
 def unhexs(h):
     return None if h == "-" else bytes.fromhex(h).decode("utf-8", "replace")
 
@@ -133,11 +136,12 @@ def run(c):
                       "numerals are read with the independent reader of checks/c05.py"]
     if not c.build_harness():
         return
-    if not c.build_lean(["Rink.Props.C06", "rinkmodel"]):
+    if not c.build_lean(["Rink.Props.C06", "Rink.Props.C06Target", "rinkmodel"]):
         return
     c.audit("Rink.Props.C06", THEOREMS)
+    c.audit("Rink.Props.C06Target", TARGET_THEOREMS)
     if c.thorough:
-        c.leanchecker(["Rink.Props.C06"])
+        c.leanchecker(["Rink.Props.C06", "Rink.Props.C06Target"])
     st = vlib.eval_stream(c, "gen-c06", independent=True)
     if st is None:
         return
